@@ -107,6 +107,8 @@ def c01(pid, tier, seed):
             TextShapes=("T", "TW", "TW1", "T2W1", "TnlT", "TnnT", "e", "nl", "nlT", "Tnl", "TWnnT", "T2WnnT", "TWnT", "TWnTW"), Tpls=("M", "PnM", "MnC"), Base=0),
         fam("single_limited", W=3, H=4, D=4 if q else 5, BarOps=("burst", "tick", "set_message", "println", "finish", "finish_and_clear", "drop"), Hz=20, DTs=(0, 50000),
             MsgShapes=("a", "W1", "nlA"), TextShapes=("T", "TW1")),
+        fam("single_pty", W=6, H=5, D=4 if q else 5, BarOps=("tick", "set_message", "println", "finish", "finish_and_clear", "drop"),
+            MsgShapes=("a", "W1", "nlA"), TextShapes=("T", "TW1"), Fins=("AndLeave", "AndClear"), Tgt="pty", DTs=(0, 5000), M0="id"),
         fam("design_single", W=3, H=4, D=7 if q else 8, BarOps=("tick", "set_message", "println", "suspend", "finish", "finish_and_clear", "reset", "drop"),
             MsgShapes=("e", "a", "W", "W1", "nlA", "Anl", "WnnA"), TextShapes=("T", "TW1", "e", "TWnnT"), Tpls=("M", "PnM"), Fins=("AndLeave", "AndClear"),
             model="MC_Single", extra=dict(MaxLog=2, TextOnlyNewline=True)),
@@ -137,6 +139,8 @@ def c02(pid, tier, seed):
             model="MC_Multi", extra=dict(MaxLog=2, TextOnlyNewline=True, ZombieAccounting="repaired")),
         fam("multi_zombie_cover", W=4, H=14, Multi=True, MaxBars=4, Pre=3, Once=True, Cover=True, D=11 if q else 15, BarOps=("finish", "drop", "tick"), MpOps=(),
             Tpls=("M",), Fins=("AndLeave",), M0="id", shards=12),
+        fam("multi_pty", W=6, H=10, Multi=True, MaxBars=2, D=4 if q else 5, BarOps=("tick", "set_message", "println", "finish", "drop", "mp_remove"),
+            MpOps=("mp_println", "mp_clear"), MsgShapes=("a", "W1"), TextShapes=("T",), Fins=("AndLeave",), Tgt="pty", DTs=(0, 5000), M0="id", shards=12),
         fam("multi_limited", W=4, H=12, Multi=True, MaxBars=2, D=5 if q else 6, BarOps=("burst", "set_message", "finish", "drop", "tick"), MpOps=(),
             MsgShapes=("a",), Tpls=("M",), Fins=("AndLeave",), Hz=2, DTs=(0,), M0="id", shards=12),
         fam("multi_deep", W=5, H=40, Multi=True, MaxBars=4, D=30, BarOps=ALL_BAR_OPS | {"mp_remove"}, MpOps=("insert", "insert_rel", "mp_println", "mp_suspend", "mp_clear", "mp_set_alignment"),
@@ -443,6 +447,8 @@ def c05(pid, tier, seed):
         new = {"op": "new", "b": 1, "len": 1000000, "tpl": "P", "fin": "AndLeave", "fm": [], "m0": [], "p0": [], "pos0": 0, "tabw": 8, "hz": R, "dt": 0}
         if kind == "single":
             ops.append(dict(new, target="spy_hz"))
+        elif kind == "pty":
+            ops.append(dict(new, target="pty"))
         elif kind == "pos":
             ops.append(dict(new, target="spy"))
         else:
@@ -460,6 +466,9 @@ def c05(pid, tier, seed):
         plan.append(("single_R%d" % R, [hist(s, R, "single", False) for s in sel + (lifted20 if R == 20 or not q else (lifted20[::2] if R == 250 else lifted20[::4]))] + [hist(s, R, "single", True) for s in sel[::5]]
                      + [hist(s, R, "single", False) for s in (deep20 + steady if (R in (20, 255) or not q) else steady[:1])]))
     plan.append(("multi_R20", [hist(s, 20, "multi", False) for s in cover20[::3] + deep20[:8] + steady[:1]]))
+    # the limiter of the real console::Term target (TargetKind::Term), driven through a pseudo-terminal
+    plan.append(("pty_R20", [hist(s, 20, "pty", False) for s in cover20[::3] + lifted20[::6] + steady[:1]]))
+    plan.append(("pty_R255", [hist(s, 255, "pty", False) for s in cover20[::6] + steady[:1]]))
     plan.append(("posgate", [hist(s, 1, "pos", False) for s in cover10 + (lifted10[::2] if q else lifted10) + steady]))
     for name, hs in plan:
         bad, st, total = vlib.replay_and_judge("%s_%s" % (pid, name), hs, "api", "Trace_Throttle", shards=8)
